@@ -1,11 +1,13 @@
 """C03 - decided on the channel state machine (Model/Chan.v, Model/ChanProps.v)."""
 from harness.chandrv import ChanDriver
+from harness import concdrv
 
 
 class Driver(ChanDriver):
     PID = 'C03'
     PROP = 'c03_ok'
     PROFILES = [('consume', 150, 2000)]
+    CONC = [('consume', concdrv.gen_consume, 'conc_consume_ok', 40, 600)]
     RULE = ("scenarios from the profiles ['consume'] of harness/changen.py: sequences of "
             'application operations on 1-3 channels, each with a script of '
             'inbound frame batches (replies, deliveries, returns, cancels, '
